@@ -1825,13 +1825,17 @@ impl GlyphInstance {
     ///
     /// See [`Self::height`](field@Self::height).
     pub fn height(&self, metrics: &GlobalMetricsInstance) -> u16 {
+        self.height_unrounded(metrics).ot_round()
+    }
+
+    /// Like [`Self::height`](method@Self::height), before it is rounded and
+    /// saturated to the range of an advance.
+    pub fn height_unrounded(&self, metrics: &GlobalMetricsInstance) -> f64 {
         // https://github.com/googlefonts/glyphsLib/blob/c4db6b98/Lib/glyphsLib/builder/glyph.py#L359-L389
         // TODO: UFO always defines this; should it be made non-optional?
-        self.height
-            .unwrap_or_else(|| {
-                metrics.os2_typo_ascender.into_inner() - metrics.os2_typo_descender.into_inner()
-            })
-            .ot_round()
+        self.height.unwrap_or_else(|| {
+            metrics.os2_typo_ascender.into_inner() - metrics.os2_typo_descender.into_inner()
+        })
     }
 
     /// Get the vertical origin of this instance, falling back to a value
